@@ -1,7 +1,7 @@
 (* C03: chains of changes and whole edit histories refine the plain-data model. *)
 From Coq Require Import String List ZArith NArith Bool Lia Arith.
 From YP Require Import Outcome PyStr PyVal Doc Searches Mutate Create History
-  C03spec C04spec C09create C03hist C04lists C04delete C04order C03set C09createP C09doc C03erase.
+  C03spec C04spec C09create C03hist C04lists C04delete C04plan C03set C09createP C09doc C03erase.
 Import ListNotations.
 
 Lemma psteps_app : forall l1 l2 x y z, psteps l1 x y -> psteps l2 y z -> psteps (l1 ++ l2) x z.
